@@ -183,6 +183,38 @@ Definition tick_state (s : nstate) (e h id key : Z) : nstate :=
   if e >? snap_count
   then set_nodes2 s4 (drop_netmap (nodes2 s4) (e - snap_count)) else s4.
 
+(** The ring rotation of [UpdateSnapshotCount] ([old] = stored count, [n] =
+    new count, [id] = current index), as the list of [moveSnapshot(from, to)]
+    calls in the order the loops make them, and the range of the delete loop:
+    - enlarging: [for k := n-1; k >= diff+id+1; k-- { move(k-diff, k) }],
+      delete [id+1, min(id+1+diff, old));
+    - shrinking with [id < n] ("K2"): [for k := id+1; k < n; k++ { move(k+old-n, k) }];
+    - shrinking with [id >= n] ("K1"): [for k := 0; k < n; k++ { move(k+id-n+1, k) }]
+      and the current id becomes [n-1];
+      delete [n, old) in both shrinking cases. *)
+Definition resize_moves (old n id : Z) : list (Z * Z) :=
+  if old <? n then
+    let diff := n - old in
+    map (fun k => (k - diff, k)) (rev (zrange (diff + id + 1) n))
+  else
+    let '(step, start) := if id <? n then (old - n, id + 1) else (id - n + 1, 0) in
+    map (fun k => (k + step, k)) (zrange start n).
+
+Definition resize_dels (old n id : Z) : list Z :=
+  if old <? n then zrange (id + 1) (Z.min (id + 1 + (n - old)) old) else zrange n old.
+
+Definition resize_cur (old n id : Z) : Z :=
+  if (old <? n) || (id <? n) then id else n - 1.
+
+Definition resize_ring (r : gmap Z (list node)) (old n id : Z) : outcome (gmap Z (list node)) :=
+  let r1 := fold_left (fun r m => move_snapshot r (fst m) (snd m)) (resize_moves old n id) (Halt r) in
+  fold_left delete_slot (resize_dels old n id) r1.
+
+(** [for k := curEpoch-oldCount+1; k <= curEpoch-count; k++ { dropNetmap(k) }] *)
+Definition resize_lists (m : gmap bytes (gmap bytes node2)) (e old n : Z)
+  : gmap bytes (gmap bytes node2) :=
+  fold_left drop_netmap (zrange (e - old + 1) (e - n + 1)) m.
+
 Section WithSubscribers.
   (** Subscriber contracts are abstract: [sub_ok h] — a contract with hash
       [h] is deployed and has [newEpoch/1] ([management.HasMethod]; a hash
@@ -238,32 +270,17 @@ Section WithSubscribers.
     _ <-! oassert (pk_len k);                       (* Notify: PublicKey *)
     Halt (s', [NUpdateState k st]).
 
-  (** [UpdateSnapshotCount] *)
+  (** [UpdateSnapshotCount]: guards, then the ring rotation
+      ([resize_ring]), the new current id ([resize_cur]) and the clean-up of
+      the per-epoch lists ([resize_lists]). *)
   Definition update_snapshot_count (s : nstate) (n : Z) : outcome nstate :=
     _ <-! oassert (negb (n <=? 0));
     _ <-! oassert (negb (n >=? 255));               (* fix 1c9e9e8 *)
     let old := count s in
     _ <-! oassert (negb (old =? n));
-    let id := cur s in
-    '(r1, id', del_start, del_finish) <-!
-      (if old <? n then
-         let diff := n - old in
-         let lower := diff + id + 1 in
-         (* for k := count-1; k >= lower; k-- *)
-         r1 <-! fold_left (fun r k => move_snapshot r (k - diff) k)
-                  (rev (zrange lower n)) (Halt (ring s));
-         Halt (r1, id, id + 1, Z.min (id + 1 + diff) old)
-       else
-         let '(step, start, id') :=
-           if id <? n then (old - n, id + 1, id) else (id - n + 1, 0, n - 1) in
-         r1 <-! fold_left (fun r k => move_snapshot r (k + step) k)
-                  (zrange start n) (Halt (ring s));
-         Halt (r1, id', n, old));
-    r2 <-! fold_left delete_slot (zrange del_start del_finish) (Halt r1);
-    let e := epoch s in
-    (* for k := curEpoch-oldCount+1; k <= curEpoch-count; k++ *)
-    let n2 := fold_left drop_netmap (zrange (e - old + 1) (e - n + 1)) (nodes2 s) in
-    Halt (set_nodes2 (set_ring (set_cur (set_count s n) id') r2) n2).
+    r2 <-! resize_ring (ring s) old n (cur s);
+    Halt (set_nodes2 (set_ring (set_cur (set_count s n) (resize_cur old n (cur s))) r2)
+                     (resize_lists (nodes2 s) (epoch s) old n)).
 
   (** [SubscribeForNewEpoch]: [None] = already subscribed (returns without
       a notification). *)
